@@ -17,6 +17,8 @@ an abstract cipher.  `decryptValue C k s` is the tool's own notion of "the plain
 encrypted scalar of `d` became a scalar that decrypts under the new key to the plaintext it had
 under the old key and no longer decrypts under the old key; every other scalar is identical.
 
+`rotate_once_and_shared` (sharing and call counts) needs neither the cipher laws nor a successful run.
+
 Known findings excluded by explicit hypotheses (witnesses below): a plaintext that itself looks
 encrypted is stored raw (C19-F2, `WF`); a document that is a single scalar is not searched
 (C19-F3, `isContainer`); trailing blanks of a plaintext are lost — invisible at the level of
@@ -75,14 +77,72 @@ theorem rotate_frame (C : Cipher) (old new : Str) (L : Laws C old new)
   | true => exact mask_of_rel C old new _ _ (rotate_rekeys_partial C old new L tbl d hd hwf hok)
   | false => cases d <;> simp [isContainer] at hd <;> rfl
 
-/-- Full statement (not proved): in the rotated document all nodes carrying one anchor name are
-equal, and the number of encryptions equals the number of distinct secrets.
+/-- **Values shared through an anchor are rotated once and stay shared.**
 
-Proved (the two local facts the loop rests on): an encrypted scalar whose anchor has been rotated
-already takes the recorded image and causes no cipher call and no state change at all; the first
-visit of an anchored encrypted scalar records its image under its anchor.  Missing: lifting
-"recorded images are never overwritten" through the mutual recursion to the whole output. -/
-theorem rotate_once_and_shared_partial (C : Cipher) (old new : Str) (an : Str) (s : Str)
+For every document whose anchors name one node each (`WF`; no hypothesis on the cipher, and whether
+or not the run fails):
+
+* *stay shared* — there is one anchor table `g` for the whole output: every anchored node of the
+  rotated document is the node `g` gives for its anchor name (`AnchorsOne`), so all occurrences of one
+  anchor are equal in the output.  `g` is the table of recorded images (`seen`), and the unchanged
+  input node for every anchor the loop did not record;
+* *rotated once* — for any list `names` holding the anchor name of every anchored encrypted scalar
+  (in particular a duplicate-free one), the numbers of decryptions and of encryptions are at most
+  the number of un-anchored encrypted scalars plus `names.length`: one cipher round per distinct
+  anchored secret, however many aliases it has.
+
+Proof: recorded images are never overwritten (`Ext`, monotonicity of `seen` through the mutual
+recursion; an anchored container cannot contain its own anchor: `rotNode_new`), see
+`rotNode_shared` and `rotNode_once` in `Lemmas/Rotate.lean`. -/
+theorem rotate_once_and_shared (C : Cipher) (old new : Str) (tbl : Str → Option Node) (d : Node)
+    (names : List Str) (hwf : WF C old tbl d) (hnames : ∀ an ∈ secretAnchors d, an ∈ names) :
+    (∃ g : Str → Option Node, AnchorsOne g (rotate C old new d).1 ∧
+      (∀ an n', (rotate C old new d).2.seen.lookup an = some n' → g an = some n') ∧
+      (∀ an, (rotate C old new d).2.seen.lookup an = none → g an = tbl an)) ∧
+    (rotate C old new d).2.decs ≤ bareCount d + names.length ∧
+    (rotate C old new d).2.nonce ≤ bareCount d + names.length := by
+  have hc0 : CInv names St.init.seen := ⟨by simp [St.init], fun e he => by simp [St.init] at he⟩
+  have key : ∀ n, WF C old tbl n → (∀ an ∈ secretAnchors n, an ∈ names) →
+      (∃ g : Str → Option Node, AnchorsOne g (rotNode C old new n St.init).1 ∧
+        (∀ an n', (rotNode C old new n St.init).2.seen.lookup an = some n' → g an = some n') ∧
+        (∀ an, (rotNode C old new n St.init).2.seen.lookup an = none → g an = tbl an)) ∧
+      (rotNode C old new n St.init).2.decs ≤ bareCount n + names.length ∧
+      (rotNode C old new n St.init).2.nonce ≤ bareCount n + names.length := by
+    intro n hwf hnames
+    have hs := rotNode_shared C old new tbl n St.init hwf (sinv_init tbl)
+    have ho := rotNode_once C old new tbl names n St.init hwf hnames hc0
+    have hle := scalarEntries_le ho.1
+    refine ⟨⟨outTbl tbl (rotNode C old new n St.init).2.seen, hs.2.2 _ (Ext.refl _) hs.1.1, ?_, ?_⟩, ?_, ?_⟩
+    · intro an n' h; exact outTbl_of_lookup h
+    · intro an h; unfold outTbl; rw [h]
+    · have h : _ ≤ _ := ho.2.1
+      have e1 : St.init.decs = 0 := rfl
+      have e2 : scalarEntries St.init.seen = 0 := rfl
+      rw [e1, e2] at h; omega
+    · have h : _ ≤ _ := ho.2.2
+      have e1 : St.init.nonce = 0 := rfl
+      have e2 : scalarEntries St.init.seen = 0 := rfl
+      rw [e1, e2] at h; omega
+  cases d with
+  | scalar a v =>
+    refine ⟨⟨tbl, ?_, fun an n' h => by simp [rotate, St.init] at h, fun an _ => rfl⟩, by simp [rotate, St.init],
+      by simp [rotate, St.init]⟩
+    unfold WF at hwf
+    show AnchorsOne tbl (.scalar a v)
+    unfold AnchorsOne
+    exact hwf.1
+  | set a ms =>
+    refine ⟨⟨tbl, ?_, fun an n' h => by simp [rotate, St.init] at h, fun an _ => rfl⟩, by simp [rotate, St.init],
+      by simp [rotate, St.init]⟩
+    show AnchorsOne tbl (.set a ms)
+    unfold AnchorsOne; trivial
+  | seq a xs => exact key _ hwf hnames
+  | map a es => exact key _ hwf hnames
+
+/-- The two local facts the loop rests on: an encrypted scalar whose anchor has been rotated already
+takes the recorded image and causes no cipher call and no state change at all; the first visit of
+an anchored encrypted scalar records its image under its anchor with at most one encryption. -/
+theorem alias_takes_recorded_image (C : Cipher) (old new : Str) (an : Str) (s : Str)
     (hs : isEyaml s = true) (st : St) :
     (∀ n', st.seen.lookup an = some n' →
       rotNode C old new (.scalar (some an) (.str s)) st = (n', st)) ∧
@@ -160,6 +220,37 @@ example : (rotate fakeCipher "k1".toList "k2".toList doc).1 = .map none [
 example : (rotate fakeCipher "k1".toList "k2".toList doc).2.failed = false
     ∧ (rotate fakeCipher "k1".toList "k2".toList doc).2.nonce = 2
     ∧ (rotate fakeCipher "k1".toList "k2".toList doc).2.decs = 2 := by decide +kernel
+
+private def tblDoc : Str → Option Node := fun an =>
+  if an = "s".toList then some (.scalar (some "s".toList) (.str (fakeEnc "k1".toList 0 "hi".toList))) else none
+
+/-- the hypotheses of `rotate_once_and_shared` are met by the concrete document: its anchors name
+one node each (`WF`), and `["s"]` lists the anchors of its anchored secrets … -/
+example : WF fakeCipher "k1".toList tblDoc doc ∧ ∀ an ∈ secretAnchors doc, an ∈ ["s".toList] := by
+  have hi : decryptValue fakeCipher "k1".toList (fakeEnc "k1".toList 0 "hi".toList) = some "hi".toList := by
+    decide +kernel
+  have yo : decryptValue fakeCipher "k1".toList (fakeEnc "k1".toList 0 "yo".toList) = some "yo".toList := by
+    decide +kernel
+  have pl : decryptValue fakeCipher "k1".toList "plain".toList = none := by decide +kernel
+  constructor
+  · simp only [doc, WF, WFE, WFL, and_true]
+    refine ⟨fun an h => (by cases h), ⟨fun an h => (by cases h), ?_⟩, ⟨?_, ?_⟩, ⟨?_, ?_⟩,
+      fun an h => (by cases h), fun an h => (by cases h), ?_⟩
+    · intro s p hv hd; cases hv; rw [pl] at hd; cases hd
+    · intro an h; cases h; rfl
+    · intro s p hv hd; cases hv; rw [hi] at hd; cases hd; decide +kernel
+    · intro an h; cases h; rfl
+    · intro s p hv hd; cases hv; rw [hi] at hd; cases hd; decide +kernel
+    · intro s p hv hd; cases hv; rw [yo] at hd; cases hd; decide +kernel
+  · have : secretAnchors doc = ["s".toList, "s".toList] := by decide +kernel
+    rw [this]; intro an h; simp at h; simp [h]
+
+/-- … the bound is tight on it (one un-anchored secret + one anchored secret with an alias = 2
+decryptions, 2 encryptions), and both occurrences of `&s` are the one recorded image -/
+example : bareCount doc + ["s".toList].length = 2
+    ∧ (rotate fakeCipher "k1".toList "k2".toList doc).2.decs = 2
+    ∧ (rotate fakeCipher "k1".toList "k2".toList doc).2.seen.lookup "s".toList =
+        some (.scalar (some "s".toList) (.str (fakeEnc "k2".toList 0 "hi".toList))) := by decide +kernel
 
 /-- the stand-in satisfies the laws on these values -/
 example : decryptValue fakeCipher "k2".toList (fakeEnc "k2".toList 0 "hi".toList) = some "hi".toList
